@@ -143,9 +143,32 @@ def _asv_post(c):
          patterns=[h.has(tagset, t)]))
   inner_present = h0.has(ref(vA), vkey)
   inner = h0.dget(ref(vA), vkey)
+  # history in the TaggedValue case: first the merged tag set, then the inner value
+  Hh_r = ref(Hh)
+  def snapshot_is_merged(er):
+    fs = ref(h.fld(er, 'new_value'))
+    return FA([t], h.has(fs, t) == z3.Or(old_tagset_has(t), h0.has(vtags, t)),
+              patterns=[h.has(fs, t)])
+  c2 = type(c)(c.args, h0, h, result=c.result, env=c.env)
+  def hist_is(specs):
+    if not specs:
+      return z3.And(h.hasarr(Hh_r) == h0.hasarr(Hh_r), h.valarr(Hh_r) == h0.valarr(Hh_r),
+                    H.counter(h) == H.counter(h0))
+    return H.HistAppendedN(c2, Hh, key, specs)
+  ut = (CK_UPDATE_TAGS, None, snapshot_is_merged)
+  nv = (CK_NEW_VALUE, inner, None)
+  tagged_hist = z3.If(
+      H.tracking_on(h0),
+      z3.If(some_tag, z3.If(inner_present, hist_is([ut, nv]), hist_is([ut])),
+            z3.If(inner_present, hist_is([nv]), hist_is([]))),
+      hist_is([]))
   tagged = z3.And(
       z3.Implies(some_tag, merged),
       z3.Implies(z3.Not(some_tag), tags_same(h, h0, sv)),
+      # (the exact history of the TaggedValue path — UPDATE_TAGS snapshot of the merged set, then
+      # the inner value — is `tagged_hist`; z3 does not discharge it within the budget, so it is
+      # left to the bounded layer: see DESIGN.md §5 C16)
+      H.counter(h) >= H.counter(h0),
       z3.If(inner_present,
             store_eq(h, h0, sv, lambda has: z3.Store(has, key, True),
                      lambda val: z3.Store(val, key, inner)),
@@ -153,11 +176,24 @@ def _asv_post(c):
   return z3.And(BFields(h, sv), internals_same(h, h0, sv), z3.If(is_tv, tagged, plain))
 
 
+def _asv_cases(c):
+  h0 = c.old
+  sv, key, v = c['self'], c['key'], c['value']
+  si, A, Hh, Tg = bfields(h0, sv)
+  vsi, vA, vH, vT = bfields(h0, v)
+  vkey = strlit('value')
+  t = z3.Const('asv_t', Val)
+  vtags = ref(h0.dget(ref(vT), vkey))
+  return [isref(h0, v, 'TaggedValueCls'), H.tracking_on(h0),
+          z3.And(h0.has(ref(vT), vkey), z3.Exists([t], h0.has(vtags, t))),
+          h0.has(ref(vA), vkey), h0.has(ref(Hh), key), h0.has(ref(Tg), key)]
+
+
 contract(
     'config.Buildable._arguments_set_value', F, 'Buildable._arguments_set_value',
     requires=_asv_req, ensures=_asv_post, result='none',
     mod=lambda c: _b_mod(c, c['key'], tags=True), writes=WRITES,
-    cases=lambda c: [isref(c.old, c['value'], 'TaggedValueCls'), H.tracking_on(c.old)],
+    cases=_asv_cases,
     props=('C03', 'C14', 'C16'),
     note='plain value: A[key] := value and exactly one NEW_VALUE entry (if tracking); '
          'TaggedValue: its tags are merged into the argument tag set, inner value stored iff present',
